@@ -1,0 +1,51 @@
+//go:build verif
+
+// Contracts for contract-based deductive verification (see /verif/DESIGN.md).
+// Comment-only file: it contributes no code to any build.
+
+package reconnect
+
+//@ global errors.ErrConnectionClosed != nil
+//@ cancelof Transport.cancel: ctx
+
+// assumed about every connector / dialer: success comes with a transport
+//@ iface Connector.Connect
+//@   ensures imp(result1 == nil, result0 != nil)
+
+//@ func (*Transport).closed
+//@   inline
+
+// r.mu protects the current connection, which is never nil after construction
+//@ lockinv[C18] Transport.mu: self.transport != nil
+//@ typeassume Transport: self.reconnector != nil && self.logger != nil && self.ctx != nil
+
+// ---------------------------------------------------------------- C18
+// reconnect (called with r.mu held): no dial when somebody else already replaced the
+// connection; a closed transport is never redialled; failure leaves the connection as it was.
+//@ func (*Transport).reconnect
+//@   props C18
+//@   nopanic
+//@   requires held(r.mu)
+//@   requires old != nil
+//@   ensures imp(old != old(r.transport), result == nil && r.transport == old(r.transport))
+//@   ensures imp(old == old(r.transport) && old(done(r.ctx)), result != nil)
+//@   ensures imp(result != nil, r.transport == old(r.transport))
+//@   ensures imp(result == nil, r.transport != nil || old(r.transport) == nil)
+//@   loop 1 invariant r.transport == old(r.transport) && r.reconnector == old(r.reconnector) && r.logger == old(r.logger) && r.ctx == old(r.ctx) && imp(old(done(r.ctx)), done(r.ctx))
+
+// writeLoop: each dequeued request is answered before the next one is dequeued (so accepted
+// writes reach the successive connections in dequeue order); the success reply is sent only
+// after an underlying Write of that request returned nil; the loop ends only with the
+// transport's context done (so that nobody is left blocked on writeReqCh).
+//@ func (*Transport).writeLoop
+//@   props C18
+//@   ghostvar pending bool = false
+//@   ghostvar written bool = false
+//@   after recv writeReqCh: pending = true
+//@   after recv writeReqCh: written = false
+//@   after call Transport).Write: written = (res0 == nil)
+//@   after call Transport).Write: pending = (res0 != nil)
+//@   assert call writeOrDone[github.com/aptpod/iscp-go/transport/reconnect.writeRes]: imp(arg1.err == nil, written)
+//@   assert call writeOrDone[github.com/aptpod/iscp-go/transport/reconnect.writeReq]: false   // the write loop never re-enqueues a request
+//@   loop 1 invariant !pending
+//@   ensures done(r.ctx)
